@@ -336,6 +336,14 @@ func (s *pureScan) call(t *ast.CallExpr) (handledChildren bool) {
 	}
 	if kind, ok := pureCallees[q]; ok {
 		switch {
+		case q == "append" && len(t.Args) > 1:
+			// append(s[lo:hi], elems...) writes elems into the backing array of s whenever hi < cap(s): for a slice
+			// that is not a buffer of this call, that is a store into shared memory
+			if se, ok := ast.Unparen(t.Args[0]).(*ast.SliceExpr); ok {
+				if id, _ := rootIdent(se.X); id == nil || !(s.fresh[info.ObjectOf(id)] && s.locals[info.ObjectOf(id)]) {
+					s.probs = append(s.probs, "append onto the re-sliced "+types.ExprString(t.Args[0])+" overwrites the backing array of memory that is not a buffer allocated in this call")
+				}
+			}
 		case kind == "WRITE":
 			if id, _ := rootIdent(t.Args[0]); id == nil || !s.fresh[info.ObjectOf(id)] {
 				s.probs = append(s.probs, q+" on "+types.ExprString(t.Args[0]))
